@@ -2,6 +2,7 @@ package main
 
 import (
 	"fmt"
+	"go/token"
 	"sort"
 	"strings"
 
@@ -298,6 +299,33 @@ func runC15(c *Ctx) {
 					}
 				}
 				c.Require("C15.R5 size-guard", FuncKey(fn)+": append", p.InstrPos(call), "a transaction is appended only when size + total <= the maximum", ok, "")
+			}
+			// the other way of selecting: a counted prefix txs[:count] — count grows only under the guard
+			for _, b := range fn.Blocks {
+				for _, in := range b.Instrs {
+					sl, isSl := in.(*ssa.Slice)
+					if !isSl || sl.High == nil || !strings.Contains(typeName(sl.Type()), "blockchain.Transaction") {
+						continue
+					}
+					phi, isPhi := stripConv(sl.High).(*ssa.Phi)
+					if !isPhi {
+						continue
+					}
+					for _, e := range phi.Edges {
+						inc, isInc := e.(*ssa.BinOp)
+						if !isInc || inc.Op != token.ADD || inc.X != ssa.Value(phi) {
+							continue
+						}
+						n++
+						ok := false
+						for _, f := range ff.FactsAt(inc.Block()) {
+							if f.IsCmp && f.Op.String() == "<=" && strings.Contains(f.L.String(), ").Size(") && f.L.Op == "binop" && f.L.Sym == "+" && f.R.Op == "param" {
+								ok = true
+							}
+						}
+						c.Require("C15.R5 size-guard", FuncKey(fn)+": prefix count", p.InstrPos(inc), "the selected prefix grows only when size + total <= the maximum", ok, "")
+					}
+				}
 			}
 			c.MinInstances("C15.R5 size-guard in "+FuncKey(fn), n, 1)
 		}
